@@ -44,8 +44,18 @@ static void put_value(std::vector<rtosc_arg_val_t> &out, const J &x, Store &st) 
     else out.push_back(scalar(x, st));
 }
 static void log_cells(JW &w, const rtosc_arg_val_t *cells, size_t n);
+// exact dyadic form of a finite float/double: value = M * 2^E with M odd (or 0, 0); [0, 0, 1] marks "mantissa wider than 31 bits"
+static void log_dyadic(JW &w, double x) {
+    if (x == 0.0 || !std::isfinite(x)) { w.arr().num(0).num(0).num(std::isfinite(x) ? 0 : 1).end_arr(); return; }
+    int e; double m = std::frexp(x, &e); // x = m * 2^e, 0.5 <= |m| < 1
+    int shift = 0; while (m != std::floor(m) && shift < 64) { m *= 2; ++shift; }
+    if (std::fabs(m) >= 2147483648.0) { w.arr().num(0).num(0).num(1).end_arr(); return; }
+    w.arr().num((long long)m).num(e - shift).num(0).end_arr();
+}
 static void log_val(JW &w, const rtosc_arg_val_t *v) {
-    w.obj().kstr("t", std::string(1, v->type ? v->type : '?')).key("v");
+    w.obj().kstr("t", std::string(1, v->type ? v->type : '?'));
+    if (v->type == 'f') { w.key("dy"); log_dyadic(w, v->val.f); } else if (v->type == 'd') { w.key("dy"); log_dyadic(w, v->val.d); }
+    w.key("v");
     switch (v->type) {
         case 'i': case 'c': case 'r': w.limbs32((uint32_t)v->val.i); break;
         case 'f': { uint32_t u; memcpy(&u, &v->val.f, 4); w.limbs32(u); break; }
@@ -65,6 +75,10 @@ static void log_cells(JW &w, const rtosc_arg_val_t *cells, size_t n) {
     w.arr();
     if (n) { rtosc_arg_val_itr it; rtosc_arg_val_itr_init(&it, cells); int guard = 0;
         while (it.i < n && guard++ < 400) { rtosc_arg_val_t buf; const rtosc_arg_val_t *v = rtosc_arg_val_itr_get(&it, &buf);
+            if (it.av->type == '-' && !rtosc_av_rep_has_delta(it.av) && it.av[1].type == 'a') { // "Nx[...]": the iterator cannot repeat an array; expand it here
+                int reps = rtosc_av_rep_num(it.av); int alen = rtosc_av_arr_len(it.av + 1);
+                for (int k = 0; k < reps && k < 64; ++k) log_val(w, it.av + 1);
+                it.av += 2 + alen; it.i += 2 + alen; it.range_i = 0; continue; }
             if (it.av->type == '-' && rtosc_av_rep_num(it.av) == 0) { // infinite range (only at the end of arrays)
                 w.obj().kstr("t", "...").key("v"); w.arr(); for (int k = 0; k < 3; ++k) { rtosc_arg_val_t b2; rtosc_arg_val_itr i2 = it; i2.range_i = k; log_val(w, rtosc_arg_val_itr_get(&i2, &b2)); } w.end_arr().end_obj(); break; }
             log_val(w, v); rtosc_arg_val_itr_next(&it); } }
